@@ -47,13 +47,26 @@ Definition bc_ok (isr : bool) (s1 s2 : shape) : bool :=
 Definition bc_res (s1 s2 : shape) : shape :=
   rev (map (fun p => axis_result (fst p) (snd p)) (zip_longest 1 (rev s1) (rev s2))).
 
-Lemma broadcast_shape2_unfold isr s1 s2 :
-  broadcast_shape2 isr s1 s2 = if bc_ok isr s1 s2 then Ok (bc_res s1 s2) else Raise ValueError.
+Lemma py_len_tuple (l : list Z) : py_len (VTuple (map VInt l)) = Ok (VInt (Z.of_nat (length l))).
+Proof. simpl. rewrite map_length. reflexivity. Qed.
+
+(* the generated skeleton: ValueError iff (is_result and shape1 has more axes than shape2) or some aligned pair
+   of extents is inadmissible *)
+Lemma broadcast_shape2_unfold_gen isr s1 s2 :
+  broadcast_shape2 isr s1 s2 =
+  if (isr && (Z.of_nat (length s1) >? Z.of_nat (length s2))) || negb (bc_ok isr s1 s2)
+  then Raise ValueError else Ok (bc_res s1 s2).
 Proof.
   unfold broadcast_shape2, g_get_broadcast_shape, bc_ok, bc_res. rewrite result_fillvalue_spec.
-  destruct (forallb _ _); cbn; [|reflexivity].
-  rewrite map_unint_VInt. reflexivity.
+  rewrite !py_len_tuple. destruct isr; cbn.
+  - destruct (Z.of_nat (length s1) >? Z.of_nat (length s2)); cbn; [reflexivity|].
+    destruct (forallb _ _); cbn; [|reflexivity]. rewrite map_unint_VInt. reflexivity.
+  - destruct (forallb _ _); cbn; [|reflexivity]. rewrite map_unint_VInt. reflexivity.
 Qed.
+
+Lemma broadcast_shape2_unfold s1 s2 :
+  broadcast_shape2 false s1 s2 = if bc_ok false s1 s2 then Ok (bc_res s1 s2) else Raise ValueError.
+Proof. rewrite broadcast_shape2_unfold_gen. simpl. destruct (bc_ok false s1 s2); reflexivity. Qed.
 
 (* ================================================================== B. broadcast_shape_spec *)
 
